@@ -894,7 +894,11 @@ def oracle_load(ctx: Ctx, real: Real, kind, table, rcls, tgt, tp, declared, case
     try:
         obj = real.retort.load(data, tp)
     except Exception as e:
-        sig = signature_for(kind, table, tgt, None, f"load:conforming-rejected:{kind}")
+        tag = f"load:conforming-rejected:{kind}"
+        if kind in ("namedtuple", "pydantic") and len(table[tgt["cls"]]["params"]) == 1:
+            # an iterable model class with exactly one type argument
+            tag = "one-parameter-generic-model-routed-to-iterable-provider"
+        sig = signature_for(kind, table, tgt, None, tag)
         ctx.fail(sig, f"{kind} hierarchy {case['classes']} target {tgt}: data {data} conforms to the declared types "
                       f"{ {k: repr(to_py(h)) for k, h in declared.items()} } but load raised {type(e).__name__}", case)
         return
@@ -1003,8 +1007,12 @@ def process(ctx: Ctx, drv, items):
         if suite == "resolve-generic" and rep is not None and "ok" in rep:
             m = rep["ok"]
             ctx.dist["model-wf" if m["wf"] else "model-not-wf"] += 1
-            if m["wf"] and m["prec"] and m["ovis"]:
-                ctx.dist["covered-by-partial-theorem"] += 1
+            if m["wf"] and m["prec"] and m["ovis"] and case["kind"] != "pydantic":
+                ctx.dist["covered-by-resolve_eq_spec_partial"] += 1
+            if m["wf"] and m["mono"] and m["noconf"] and case["kind"] not in ("pydantic", "typeddict"):
+                ctx.dist["covered-by-resolve_eq_spec_no_conflict"] += 1
+            if not m["mono"]:
+                ctx.dist["model-mro-not-monotone"] += 1
             sc = counts.setdefault("spec-agrees", [0, 0])
             sc[0] += 1
             if not model_vs_python_spec(ctx, case, rep, extra):
